@@ -167,6 +167,19 @@ CHECKS = {
              "replay of every 4th path model runs the real validation); PinchProblem load/target/export sequences are C16's part. " + ENGINE_NOTE,
         technique="solver-based symbolic execution of the real service (z3) with a structural state-snapshot invariant (induction step)",
     ),
+    "C14": dict(
+        category="model_checking",
+        text="The real main.pinch_analysis_service is executed symbolically on degenerate-but-legal problem shapes with one temperature a z3 "
+             "real over [0,500], crossed with solver-chosen option vectors. Every feasible path is a proof obligation: an exception raised by "
+             "the library on a feasible path is a counterexample (replayed on the unmodified code); all reported numbers finite; unique "
+             "record names with one direct-integration record per zone; every reported temperature inside the input envelope widened by the "
+             "contributions. Schema validity and JSON round trip are checked on the concrete replay of path models through real pydantic "
+             "(path-coverage-directed witnesses, not a for-all).",
+        design_ref="5/C14",
+        note="9 shapes x 5 option vectors (quick: 6 shapes x 1-3 vectors); area, heat-pump, turbine and exergy options excluded (scipy/CoolProp); "
+             "pydantic stand-ins and identity curve cleaning during symbolic runs. " + ENGINE_NOTE,
+        technique="solver-based path-exhaustive symbolic execution of the real service (z3); exceptions on feasible paths are counterexamples",
+    ),
 }
 
 NOT_YET = {}
